@@ -28,6 +28,20 @@ import OSq.Model.Passes
     `cnot_length` (≤ 8 — NOT 7: the two-CNOT form has eight members and all can survive the filter; see the
     example at the end of the file and the Python run quoted there).
   * `cnot_passthrough`   every gate that is not `.ctrl c (.bsr …)` is returned unchanged.
+
+  McKay decomposer (input `.bsr q ax an ph`; defs `mckayAngles`, `mckayOpt`, `mckayTail`, `mckayRxAngle`, `optRz`,
+  `mckayGeneric` name the pieces):
+  * `mckayDecompose_bsr_eq`   closed form of the model's `do` block (join points / mutable `out` unfolded).
+  * `mckay_form`    exact output, five cases: native name → `[g]`; `|angle| < atol` → `[]`; z-axis → `[Rz(angle·z)]`;
+                    Z-X-Z shortcut → `filter [Rz θ1] ++ X90 :: filter [Rz θ3]`; generic → `mckayGeneric (mckayAngles …)`.
+  * `mckay_shape`   every element is a rotation on `q` named `Rz` or `X90`; length ≤ 5; at most two `X90`.
+  * `mckayGeneric_shape`  generic path: `Rz`s carry `atol < |parameter|`, exactly two `X90`, ≤ 5 gates.
+  * `mckay_all_named`, `no_identity_mckay` (structural part; the ℝ statement is in `OSq.Proofs.ShapeReal`).
+  * `mckay_passthrough` (non-rotations), `mckay_passthrough_native` (anything named `Rz`/`X90`), `mckay_null`.
+
+  All three:
+  * `decomposer_operands_subset`   every emitted gate's operands lie in the input gate's operands, it has no repeated
+        operand and is shape-correct if the input is (input assumed duplicate-free, for the pass-through branches).
 -/
 set_option linter.unusedSimpArgs false
 set_option linter.unusedSectionVars false
@@ -477,6 +491,472 @@ theorem cnot_passthrough (atol : α) (g : Gate α) (nm : Option (Named α))
     | matrix m ops => rfl
     | ctrl c' g'' => rfl
 
+/-! ### McKay decomposer -/
+
+/-- the three Euler angles `(λ, θ, φ)` of the generic McKay path, already normalised -/
+def mckayAngles (atol : α) (axis : Vec3 α) (angle : α) : α × α × α :=
+  let sh := Trig.sin (angle / two)
+  let ch := Trig.cos (angle / two)
+  let zaMod := Trig.sqrt (ch * ch + (axis.2.2 * sh) * (axis.2.2 * sh))
+  let zbMod := absS sh * Trig.sqrt (axis.1 * axis.1 + axis.2.1 * axis.2.1)
+  let theta := π - two * Trig.atan2 zbMod zaMod
+  let alpha := Trig.atan2 (-sh * axis.2.2) ch
+  let beta := Trig.atan2 (-sh * axis.1) (-sh * axis.2.1)
+  (normalizeAngle atol (beta - alpha), normalizeAngle atol theta, normalizeAngle atol (-beta - alpha - π))
+
+/-- `if abs(θ) > ATOL: decomposed_g.append(Rz(q, θ))` -/
+def mckayOpt (atol : α) (q : Int) (θ : α) : Except Err (List (GStmt α)) :=
+  if atol < absS θ then (named atol "Rz" [.qubit q, .float θ]) >>= fun r => pure [r] else pure []
+
+/-- the generic McKay path, given the angles and the `X90` gate -/
+def mckayTail (atol : α) (q : Int) (x90 : GStmt α) (lam theta phi : α) : Except Err (List (GStmt α)) :=
+  if (decide (absS theta < atol) && Scalar.decEqB lam phi) = true then pure [x90, x90]
+  else
+    mckayOpt atol q lam >>= fun o1 =>
+    mckayOpt atol q theta >>= fun o2 =>
+    mckayOpt atol q phi >>= fun o3 =>
+    pure (o1 ++ [x90] ++ o2 ++ [x90] ++ o3)
+
+/-- the angle of the first gate named `Rx` of a list, if there is one and it is a rotation -/
+def mckayRxAngle (zxz : List (GStmt α)) : Option α :=
+  match zxz[zxz.findIdx fun s => s.name? == some "Rx"]? with
+  | some (.bsr _ _ an _, _) => some an
+  | _ => none
+
+private def mckayTailRaw (atol : α) (q : Int) (x90 : GStmt α) (lam theta phi : α) : Except Err (List (GStmt α)) :=
+  if absS theta < atol && Scalar.decEqB lam phi then pure [x90, x90]
+  else do
+    let mut out : List (GStmt α) := []
+    if atol < absS lam then
+      out := out ++ [← named atol "Rz" [.qubit q, .float lam]]
+    out := out ++ [x90]
+    if atol < absS theta then
+      out := out ++ [← named atol "Rz" [.qubit q, .float theta]]
+    out := out ++ [x90]
+    if atol < absS phi then
+      out := out ++ [← named atol "Rz" [.qubit q, .float phi]]
+    pure out
+
+private theorem mckayTailRaw_eq (atol : α) (q : Int) (x90 : GStmt α) (lam theta phi : α) :
+    mckayTailRaw atol q x90 lam theta phi = mckayTail atol q x90 lam theta phi := by
+  unfold mckayTailRaw mckayTail mckayOpt
+  split
+  · rfl
+  · by_cases h1 : atol < absS lam <;> by_cases h2 : atol < absS theta <;> by_cases h3 : atol < absS phi <;>
+      simp only [h1, h2, h3, if_true, if_false] <;>
+      cases named atol "Rz" [.qubit q, .float lam] <;> cases named atol "Rz" [.qubit q, .float theta] <;>
+      cases named atol "Rz" [.qubit q, .float phi] <;> simp [bind, Except.bind, pure, Except.pure]
+
+private theorem mckayDecompose_bsr_eq_raw (atol : α) (q : Int) (ax : Vec3 α) (an ph : α) (nm : Option (Named α)) :
+    mckayDecompose atol (.bsr q ax an ph, nm) =
+      if (GStmt.name? (Gate.bsr q ax an ph, nm) == some "Rz" || GStmt.name? (Gate.bsr q ax an ph, nm) == some "X90") = true
+      then .ok [(.bsr q ax an ph, nm)]
+      else if absS an < atol then .ok []
+      else if (Scalar.decEqB ax.1 zero && Scalar.decEqB ax.2.1 zero) = true then
+        named atol "Rz" [.qubit q, .float (an * ax.2.2)] >>= fun r => pure [r]
+      else
+        abaDecompose atol .ZXZ (.bsr q ax an ph, nm) >>= fun zxz =>
+        named atol "X90" [.qubit q] >>= fun x90 =>
+        let tail := mckayTailRaw atol q x90 (mckayAngles atol ax an).1 (mckayAngles atol ax an).2.1
+          (mckayAngles atol ax an).2.2
+        match mckayRxAngle zxz with
+        | some a =>
+          if absS (a - π / two) < atol then pure (replaceAt zxz (zxz.findIdx fun s => s.name? == some "Rx") x90)
+          else tail
+        | none => tail := by
+  unfold mckayDecompose
+  split
+  · rename_i q' ax' an' ph' heq
+    cases heq
+    split
+    · rfl
+    split
+    · rfl
+    split
+    · rfl
+    rfl
+  · rename_i hne
+    exact absurd rfl (hne q ax an ph)
+
+/-- **`mckayDecompose` on a rotation, in closed form** (the model's `do` block with its join points and mutable
+    `out` unfolded once and for all): pass-through for `Rz`/`X90`, nothing for a null angle, a single `Rz` for a
+    rotation about `z`, else the Z-X-Z shortcut (first `Rx` replaced by `X90` when its angle is `π/2`), else the
+    generic path `mckayTail` on `mckayAngles`. -/
+theorem mckayDecompose_bsr_eq (atol : α) (q : Int) (ax : Vec3 α) (an ph : α) (nm : Option (Named α)) :
+    mckayDecompose atol (.bsr q ax an ph, nm) =
+      if (GStmt.name? (Gate.bsr q ax an ph, nm) == some "Rz" || GStmt.name? (Gate.bsr q ax an ph, nm) == some "X90") = true
+      then .ok [(.bsr q ax an ph, nm)]
+      else if absS an < atol then .ok []
+      else if (Scalar.decEqB ax.1 zero && Scalar.decEqB ax.2.1 zero) = true then
+        named atol "Rz" [.qubit q, .float (an * ax.2.2)] >>= fun r => pure [r]
+      else
+        abaDecompose atol .ZXZ (.bsr q ax an ph, nm) >>= fun zxz =>
+        named atol "X90" [.qubit q] >>= fun x90 =>
+        match mckayRxAngle zxz with
+        | some a =>
+          if absS (a - π / two) < atol then pure (replaceAt zxz (zxz.findIdx fun s => s.name? == some "Rx") x90)
+          else mckayTail atol q x90 (mckayAngles atol ax an).1 (mckayAngles atol ax an).2.1 (mckayAngles atol ax an).2.2
+        | none => mckayTail atol q x90 (mckayAngles atol ax an).1 (mckayAngles atol ax an).2.1 (mckayAngles atol ax an).2.2 := by
+  rw [mckayDecompose_bsr_eq_raw]
+  simp only [mckayTailRaw_eq]
+
+private theorem zxz_replace (rz1 rx rz2 x : GStmt α) (f : GStmt α → Bool)
+    (h1 : rz1.name? = some "Rz") (hx : rx.name? = some "Rx") (h2 : rz2.name? = some "Rz") :
+    (f rx = true →
+      ([rz1, rx, rz2].filter f)[([rz1, rx, rz2].filter f).findIdx fun s => s.name? == some "Rx"]? = some rx ∧
+      replaceAt ([rz1, rx, rz2].filter f) (([rz1, rx, rz2].filter f).findIdx fun s => s.name? == some "Rx") x
+          = [rz1].filter f ++ x :: [rz2].filter f) ∧
+    (f rx = false →
+      ([rz1, rx, rz2].filter f)[([rz1, rx, rz2].filter f).findIdx fun s => s.name? == some "Rx"]? = none) := by
+  cases e1 : f rz1 <;> cases ex : f rx <;> cases e2 : f rz2 <;>
+    simp [List.filter, List.findIdx_cons, replaceAt, h1, hx, h2, e1, ex, e2]
+
+/-- `[Rz(q, θ)]` if `atol < |θ|`, else `[]` -/
+def optRz (atol : α) (q : Int) (axZ : Vec3 α) (θ : α) : List (GStmt α) :=
+  if atol < absS θ then [rotStmt atol "Rz" q axZ θ] else []
+
+/-- the output of the generic McKay path for angles `(λ, θ, φ)` -/
+def mckayGeneric (atol : α) (q : Int) (axX axZ : Vec3 α) (a : α × α × α) : List (GStmt α) :=
+  if (decide (absS a.2.1 < atol) && Scalar.decEqB a.1 a.2.2) = true then [x90Stmt atol q axX, x90Stmt atol q axX]
+  else optRz atol q axZ a.1 ++ [x90Stmt atol q axX] ++ optRz atol q axZ a.2.1 ++ [x90Stmt atol q axX] ++
+    optRz atol q axZ a.2.2
+
+theorem mckayOpt_eq {atol : α} {q : Int} {axZ : Vec3 α} (hZ : mkAxis (axisLit 2 : Vec3 α) = .ok axZ) (θ : α) :
+    mckayOpt atol q θ = .ok (optRz atol q axZ θ) := by
+  unfold mckayOpt optRz
+  split
+  · rw [(named_Rz_iff atol q θ _).2 ⟨axZ, hZ, rfl⟩]; rfl
+  · rfl
+
+theorem mckayTail_eq {atol : α} {q : Int} {axX axZ : Vec3 α} (hZ : mkAxis (axisLit 2 : Vec3 α) = .ok axZ)
+    (lam theta phi : α) :
+    mckayTail atol q (x90Stmt atol q axX) lam theta phi = .ok (mckayGeneric atol q axX axZ (lam, theta, phi)) := by
+  unfold mckayTail mckayGeneric
+  split
+  · rfl
+  · simp only [mckayOpt_eq hZ]; rfl
+
+/-- **exact form of a McKay decomposition** of a rotation `g = .bsr q ax an ph` (with optional name `nm`). -/
+theorem mckay_form {atol : α} {q : Int} {ax : Vec3 α} {an ph : α} {nm : Option (Named α)}
+    {out : List (GStmt α)} (h : mckayDecompose atol (.bsr q ax an ph, nm) = .ok out) :
+    -- (1) already native
+    ((nm.map (·.name) = some "Rz" ∨ nm.map (·.name) = some "X90") ∧ out = [(.bsr q ax an ph, nm)]) ∨
+    (¬ (nm.map (·.name) = some "Rz" ∨ nm.map (·.name) = some "X90") ∧
+      -- (2) null rotation
+      ((absS an < atol ∧ out = []) ∨
+       (¬ absS an < atol ∧
+        -- (3) rotation about z
+        (((Scalar.decEqB ax.1 zero && Scalar.decEqB ax.2.1 zero) = true ∧
+          ∃ axZ, mkAxis (axisLit 2 : Vec3 α) = .ok axZ ∧ out = [rotStmt atol "Rz" q axZ (an * ax.2.2)]) ∨
+         ((Scalar.decEqB ax.1 zero && Scalar.decEqB ax.2.1 zero) = false ∧
+          ∃ t1 t2 t3 axX axZ, abaAngles atol .ZXZ an ax = .ok (t1, t2, t3) ∧
+            mkAxis (axisLit 0 : Vec3 α) = .ok axX ∧ mkAxis (axisLit 2 : Vec3 α) = .ok axZ ∧
+            -- (4) Z-X-Z shortcut: the X rotation survived the identity filter and its angle is π/2
+            (((rotStmt atol "Rx" q axX t2).1.isIdentity atol = false ∧
+              absS (normalizeAngle atol t2 - π / two) < atol ∧
+              out = filterOutIdentities atol [rotStmt atol "Rz" q axZ t1] ++ x90Stmt atol q axX ::
+                    filterOutIdentities atol [rotStmt atol "Rz" q axZ t3]) ∨
+            -- (5) generic path
+             (((rotStmt atol "Rx" q axX t2).1.isIdentity atol = true ∨
+                ¬ absS (normalizeAngle atol t2 - π / two) < atol) ∧
+              out = mckayGeneric atol q axX axZ (mckayAngles atol ax an)))))))) := by
+  rw [mckayDecompose_bsr_eq] at h
+  have hname : ((GStmt.name? (Gate.bsr q ax an ph, nm) == some "Rz" ||
+      GStmt.name? (Gate.bsr q ax an ph, nm) == some "X90") = true) ↔
+      (nm.map (·.name) = some "Rz" ∨ nm.map (·.name) = some "X90") := by
+    simp [GStmt.name?]
+  by_cases hP : (nm.map (·.name) = some "Rz" ∨ nm.map (·.name) = some "X90")
+  · rw [if_pos (hname.2 hP)] at h
+    cases h; exact .inl ⟨hP, rfl⟩
+  rw [if_neg (fun h' => hP (hname.1 h'))] at h
+  refine .inr ⟨hP, ?_⟩
+  by_cases hE : absS an < atol
+  · rw [if_pos hE] at h; cases h; exact .inl ⟨hE, rfl⟩
+  rw [if_neg hE] at h
+  refine .inr ⟨hE, ?_⟩
+  cases hZf : (Scalar.decEqB ax.1 zero && Scalar.decEqB ax.2.1 zero) with
+  | true =>
+    rw [hZf, if_pos rfl, bindOk] at h
+    obtain ⟨r, hr, h⟩ := h
+    obtain ⟨axZ, hZ, rfl⟩ := (named_Rz_iff ..).1 hr
+    cases h
+    exact .inl ⟨rfl, axZ, hZ, rfl⟩
+  | false =>
+    rw [hZf, if_neg (by simp), bindOk] at h
+    obtain ⟨zxz, hzxz, h⟩ := h
+    rw [bindOk] at h
+    obtain ⟨x90, hx90, h⟩ := h
+    obtain ⟨t1, t2, t3, axZ, axX, hang, hZ, hX, rfl⟩ := aba_form hzxz
+    obtain ⟨axX', hX', rfl⟩ := (named_X90_iff ..).1 hx90
+    have hX0 : mkAxis (axisLit 0 : Vec3 α) = .ok axX := hX
+    rw [hX0] at hX'; cases hX'
+    refine .inr ⟨rfl, t1, t2, t3, axX, axZ, hang, hX, hZ, ?_⟩
+    have key := zxz_replace (rotStmt atol "Rz" q axZ t1) (rotStmt atol "Rx" q axX t2) (rotStmt atol "Rz" q axZ t3)
+      (x90Stmt atol q axX) (fun g => !(g.1.isIdentity atol)) rfl rfl rfl
+    have hrn : (rotName ABAKind.ZXZ.ia = "Rz") ∧ (rotName ABAKind.ZXZ.ib = "Rx") := ⟨rfl, rfl⟩
+    simp only [hrn.1, hrn.2, filterOutIdentities] at h ⊢
+    cases hid : (rotStmt atol "Rx" q axX t2).1.isIdentity atol with
+    | true =>
+      have hnone := key.2 (by simp [hid])
+      have hrx : mckayRxAngle (List.filter (fun g => !Gate.isIdentity atol g.fst)
+          [rotStmt atol "Rz" q axZ t1, rotStmt atol "Rx" q axX t2, rotStmt atol "Rz" q axZ t3]) = none := by
+        unfold mckayRxAngle; rw [hnone]
+      rw [hrx] at h
+      simp only [] at h
+      rw [mckayTail_eq hZ] at h
+      cases h
+      exact .inr ⟨.inl rfl, rfl⟩
+    | false =>
+      obtain ⟨hsome, hrep⟩ := key.1 (by simp [hid])
+      have hrx : mckayRxAngle (List.filter (fun g => !Gate.isIdentity atol g.fst)
+          [rotStmt atol "Rz" q axZ t1, rotStmt atol "Rx" q axX t2, rotStmt atol "Rz" q axZ t3]) =
+          some (normalizeAngle atol t2) := by
+        unfold mckayRxAngle; rw [hsome]; rfl
+      rw [hrx] at h
+      simp only [] at h
+      by_cases hg : absS (normalizeAngle atol t2 - π / two) < atol
+      · rw [if_pos hg] at h
+        cases h
+        exact .inl ⟨rfl, hg, hrep⟩
+      · rw [if_neg hg, mckayTail_eq hZ] at h
+        cases h
+        exact .inr ⟨.inr hg, rfl⟩
+
+theorem isRot_x90Stmt (atol : α) (q : Int) (ax : Vec3 α) : IsRot q "X90" (x90Stmt atol q ax) := ⟨_, _, _, _, rfl⟩
+
+theorem mem_optRz {atol : α} {q : Int} {axZ : Vec3 α} {θ : α} {s : GStmt α} (h : s ∈ optRz atol q axZ θ) :
+    s = rotStmt atol "Rz" q axZ θ ∧ atol < absS θ := by
+  unfold optRz at h
+  split at h
+  · simp only [List.mem_cons, List.not_mem_nil, or_false] at h; exact ⟨h, ‹_›⟩
+  · cases h
+
+theorem optRz_length (atol : α) (q : Int) (axZ : Vec3 α) (θ : α) : (optRz atol q axZ θ).length ≤ 1 := by
+  unfold optRz; split <;> simp
+
+theorem optRz_filter_x90 (atol : α) (q : Int) (axZ : Vec3 α) (θ : α) :
+    (optRz atol q axZ θ).filter (fun s => s.name? == some "X90") = [] := by
+  unfold optRz; split <;> simp [GStmt.name?, rotStmt]
+
+/-- shape of the generic McKay path: `Rz`s with `atol < |parameter|` and exactly two `X90`, at most five gates -/
+theorem mckayGeneric_shape (atol : α) (q : Int) (axX axZ : Vec3 α) (a : α × α × α) :
+    (∀ s ∈ mckayGeneric atol q axX axZ a,
+      s = x90Stmt atol q axX ∨ ∃ θ, s = rotStmt atol "Rz" q axZ θ ∧ atol < absS θ) ∧
+    (mckayGeneric atol q axX axZ a).length ≤ 5 ∧
+    ((mckayGeneric atol q axX axZ a).filter (fun s => s.name? == some "X90")).length = 2 := by
+  unfold mckayGeneric
+  split
+  · refine ⟨?_, by simp, by simp [GStmt.name?, x90Stmt]⟩
+    intro s hs
+    simp only [List.mem_cons, List.not_mem_nil, or_false, or_self] at hs
+    exact .inl hs
+  · refine ⟨?_, ?_, ?_⟩
+    · intro s hs
+      simp only [List.mem_append, List.mem_cons, List.not_mem_nil, or_false] at hs
+      rcases hs with (((hs | rfl) | hs) | rfl) | hs
+      · exact .inr ⟨_, mem_optRz hs⟩
+      · exact .inl rfl
+      · exact .inr ⟨_, mem_optRz hs⟩
+      · exact .inl rfl
+      · exact .inr ⟨_, mem_optRz hs⟩
+    · have h1 := optRz_length atol q axZ a.1
+      have h2 := optRz_length atol q axZ a.2.1
+      have h3 := optRz_length atol q axZ a.2.2
+      simp only [List.length_append, List.length_cons, List.length_nil]
+      omega
+    · simp only [List.filter_append, optRz_filter_x90]
+      simp [GStmt.name?, x90Stmt]
+
+private theorem foi_single (atol : α) (s : GStmt α) :
+    filterOutIdentities atol [s] = if s.1.isIdentity atol then [] else [s] := by
+  unfold filterOutIdentities
+  cases h : s.1.isIdentity atol <;> simp [List.filter, h]
+
+/-- **C10, McKay**: every emitted gate is a rotation on the input qubit named `Rz` or `X90`; at most five gates; at
+    most two `X90`.  (Holds for every input rotation, also the pass-through one.) -/
+theorem mckay_shape {atol : α} {q : Int} {ax : Vec3 α} {an ph : α} {nm : Option (Named α)}
+    {out : List (GStmt α)} (h : mckayDecompose atol (.bsr q ax an ph, nm) = .ok out) :
+    (∀ s ∈ out, IsRot q "Rz" s ∨ IsRot q "X90" s) ∧ out.length ≤ 5 ∧
+    (out.filter (fun s => s.name? == some "X90")).length ≤ 2 := by
+  rcases mckay_form h with ⟨hP, rfl⟩ | ⟨-, ⟨-, rfl⟩ | ⟨-, ⟨-, axZ, -, rfl⟩ | ⟨-, t1, t2, t3, axX, axZ, -, -, -, h4 | h5⟩⟩⟩
+  · refine ⟨?_, by simp, ?_⟩
+    · intro s hs
+      simp only [List.mem_cons, List.not_mem_nil, or_false] at hs
+      subst hs
+      cases nm with
+      | none => simp at hP
+      | some n =>
+        obtain ⟨name, args⟩ := n
+        simp only [Option.map_some, Option.some.injEq] at hP
+        rcases hP with rfl | rfl
+        · exact .inl ⟨_, _, _, _, rfl⟩
+        · exact .inr ⟨_, _, _, _, rfl⟩
+    · exact Nat.le_trans (List.length_filter_le _ _) (by simp)
+  · simp
+  · refine ⟨?_, by simp, Nat.le_trans (List.length_filter_le _ _) (by simp)⟩
+    intro s hs
+    simp only [List.mem_cons, List.not_mem_nil, or_false] at hs
+    subst hs
+    exact .inl (isRot_rotStmt ..)
+  · obtain ⟨-, -, rfl⟩ := h4
+    simp only [foi_single]
+    refine ⟨?_, ?_, ?_⟩
+    · intro s hs
+      simp only [List.mem_append, List.mem_cons] at hs
+      rcases hs with hs | rfl | hs
+      · split at hs
+        · cases hs
+        · simp only [List.mem_cons, List.not_mem_nil, or_false] at hs; subst hs; exact .inl (isRot_rotStmt ..)
+      · exact .inr (isRot_x90Stmt ..)
+      · split at hs
+        · cases hs
+        · simp only [List.mem_cons, List.not_mem_nil, or_false] at hs; subst hs; exact .inl (isRot_rotStmt ..)
+    · split <;> split <;> simp
+    · split <;> split <;> simp [GStmt.name?, rotStmt, x90Stmt]
+  · obtain ⟨-, rfl⟩ := h5
+    obtain ⟨hm, hl, hc⟩ := mckayGeneric_shape atol q axX axZ (mckayAngles atol ax an)
+    refine ⟨?_, hl, Nat.le_of_eq hc⟩
+    intro s hs
+    rcases hm s hs with rfl | ⟨θ, rfl, -⟩
+    · exact .inr (isRot_x90Stmt ..)
+    · exact .inl (isRot_rotStmt ..)
+
+theorem mckay_all_named {atol : α} {q : Int} {ax : Vec3 α} {an ph : α} {nm : Option (Named α)}
+    {out : List (GStmt α)} (h : mckayDecompose atol (.bsr q ax an ph, nm) = .ok out) :
+    ∀ s ∈ out, s.2.isSome = true := fun s hs => ((mckay_shape h).1 s hs).elim IsRot.isSome IsRot.isSome
+
+/-- **pass-through** (1): a gate that is not a Bloch-sphere rotation is returned unchanged -/
+theorem mckay_passthrough (atol : α) (g : Gate α) (nm : Option (Named α))
+    (hg : ∀ q ax an ph, g ≠ .bsr q ax an ph) : mckayDecompose atol (g, nm) = .ok [(g, nm)] := by
+  cases g with
+  | bsr q ax an ph => exact absurd rfl (hg q ax an ph)
+  | matrix m ops => rfl
+  | ctrl c g => rfl
+
+/-- **pass-through** (2): any gate whose name is `Rz` or `X90` is returned unchanged -/
+theorem mckay_passthrough_native (atol : α) (g : Gate α) (nm : Option (Named α))
+    (hn : nm.map (·.name) = some "Rz" ∨ nm.map (·.name) = some "X90") :
+    mckayDecompose atol (g, nm) = .ok [(g, nm)] := by
+  cases g with
+  | bsr q ax an ph =>
+    rw [mckayDecompose_bsr_eq, if_pos]
+    rcases hn with h | h <;> simp [GStmt.name?, h]
+  | matrix m ops => rfl
+  | ctrl c g => rfl
+
+/-- a rotation with `|angle| < atol` (not named `Rz`/`X90`) decomposes into nothing -/
+theorem mckay_null (atol : α) (q : Int) (ax : Vec3 α) (an ph : α) (nm : Option (Named α))
+    (hn : ¬ (nm.map (·.name) = some "Rz" ∨ nm.map (·.name) = some "X90")) (ha : absS an < atol) :
+    mckayDecompose atol (.bsr q ax an ph, nm) = .ok [] := by
+  rw [mckayDecompose_bsr_eq, if_neg, if_pos ha]
+  simpa [GStmt.name?] using hn
+
+/-- **no identity, structural part** (every scalar type): each gate emitted for a rotation not named `Rz`/`X90` is
+    (a) a gate that passed the identity filter (Z-X-Z shortcut), or (b) an `X90`, or (c) an `Rz(q, θ)` whose
+    *parameter* satisfies the guard `atol < |θ|` (generic path) or is `angle * axis_z` of an input with
+    `¬ |angle| < atol` (rotation about z).  That (b), (c) are not identities needs facts about `normalizeAngle`
+    and `π` that no abstract scalar provides; see `OSq.Proofs.ShapeReal` for `α = ℝ`. -/
+theorem no_identity_mckay {atol : α} {q : Int} {ax : Vec3 α} {an ph : α} {nm : Option (Named α)}
+    {out : List (GStmt α)} (h : mckayDecompose atol (.bsr q ax an ph, nm) = .ok out)
+    (hn : ¬ (nm.map (·.name) = some "Rz" ∨ nm.map (·.name) = some "X90")) :
+    ∀ s ∈ out, s.1.isIdentity atol = false ∨ (∃ axX, s = x90Stmt atol q axX) ∨
+      ∃ axZ θ, s = rotStmt atol "Rz" q axZ θ ∧ (atol < absS θ ∨ (θ = an * ax.2.2 ∧ ¬ absS an < atol)) := by
+  rcases mckay_form h with ⟨hP, -⟩ | ⟨-, ⟨-, rfl⟩ | ⟨hE, ⟨-, axZ, -, rfl⟩ | ⟨-, t1, t2, t3, axX, axZ, -, -, -, h4 | h5⟩⟩⟩
+  · exact absurd hP hn
+  · simp
+  · intro s hs
+    simp only [List.mem_cons, List.not_mem_nil, or_false] at hs
+    subst hs
+    exact .inr (.inr ⟨axZ, _, rfl, .inr ⟨rfl, hE⟩⟩)
+  · obtain ⟨-, -, rfl⟩ := h4
+    intro s hs
+    simp only [List.mem_append, List.mem_cons] at hs
+    rcases hs with hs | rfl | hs
+    · exact .inl (mem_filterOutIdentities.1 hs).2
+    · exact .inr (.inl ⟨axX, rfl⟩)
+    · exact .inl (mem_filterOutIdentities.1 hs).2
+  · obtain ⟨-, rfl⟩ := h5
+    intro s hs
+    rcases (mckayGeneric_shape atol q axX axZ (mckayAngles atol ax an)).1 s hs with rfl | ⟨θ, rfl, hθ⟩
+    · exact .inr (.inl ⟨axX, rfl⟩)
+    · exact .inr (.inr ⟨axZ, θ, rfl, .inl hθ⟩)
+
+/-! ### operands of the emitted gates (used by the pipeline proofs) -/
+
+private theorem ops_of_isRot {q : Int} {n : String} {s : GStmt α} {g : Gate α} (h : IsRot q n s) (hq : q ∈ g.operands) :
+    (∀ x ∈ s.1.operands, x ∈ g.operands) ∧ hasDup s.1.operands = false ∧ s.1.shapeOk = true := by
+  obtain ⟨_, _, _, _, rfl⟩ := h
+  refine ⟨?_, rfl, rfl⟩
+  intro x hx
+  simp only [Gate.operands, List.mem_cons, List.not_mem_nil, or_false] at hx
+  exact hx ▸ hq
+
+private theorem ops_of_self {g : Gate α} {nm : Option (Named α)} {out : List (GStmt α)}
+    (hd : hasDup g.operands = false) (h : Except.ok (ε := Err) [(g, nm)] = .ok out) :
+    ∀ s ∈ out, (∀ x ∈ s.1.operands, x ∈ g.operands) ∧ hasDup s.1.operands = false ∧
+      (g.shapeOk = true → s.1.shapeOk = true) := by
+  cases h
+  intro s hs
+  simp only [List.mem_cons, List.not_mem_nil, or_false] at hs
+  subst hs
+  exact ⟨fun _ hx => hx, hd, id⟩
+
+/-- **operands of a decomposition**: for each of the three built-in decomposers, every emitted gate acts on qubits of
+    the input gate only, has no repeated operand, and is shape-correct if the input is.  The premise
+    `hasDup g.operands = false` (true of every constructible gate) is only used by the pass-through branches; for
+    the CNOT decomposer `control ≠ target` is *not* needed as a hypothesis: `CNOT(c, c)` raises (`named_CNOT_iff`),
+    so a successful run already implies it (`cnot_shape`). -/
+theorem decomposer_operands_subset (atol : α) (d : Decomposer) (g : Gate α) (nm : Option (Named α))
+    (out : List (GStmt α)) (hd : hasDup g.operands = false) (h : d.run atol (g, nm) = .ok out) :
+    ∀ s ∈ out, (∀ x ∈ s.1.operands, x ∈ g.operands) ∧ hasDup s.1.operands = false ∧
+      (g.shapeOk = true → s.1.shapeOk = true) := by
+  cases d with
+  | aba k =>
+    change abaDecompose atol k (g, nm) = .ok out at h
+    cases g with
+    | bsr q ax an ph =>
+      intro s hs
+      have hq : q ∈ (Gate.bsr q ax an ph).operands := by simp [Gate.operands]
+      rcases aba_all_rot h s hs with hr | hr
+      · obtain ⟨h1, h2, h3⟩ := ops_of_isRot hr hq; exact ⟨h1, h2, fun _ => h3⟩
+      · obtain ⟨h1, h2, h3⟩ := ops_of_isRot hr hq; exact ⟨h1, h2, fun _ => h3⟩
+    | matrix m ops =>
+      rw [aba_passthrough atol k _ nm (by intro _ _ _ _ h; cases h)] at h; exact ops_of_self hd h
+    | ctrl c g' =>
+      rw [aba_passthrough atol k _ nm (by intro _ _ _ _ h; cases h)] at h; exact ops_of_self hd h
+  | mckay =>
+    change mckayDecompose atol (g, nm) = .ok out at h
+    cases g with
+    | bsr q ax an ph =>
+      intro s hs
+      have hq : q ∈ (Gate.bsr q ax an ph).operands := by simp [Gate.operands]
+      rcases (mckay_shape h).1 s hs with hr | hr
+      · obtain ⟨h1, h2, h3⟩ := ops_of_isRot hr hq; exact ⟨h1, h2, fun _ => h3⟩
+      · obtain ⟨h1, h2, h3⟩ := ops_of_isRot hr hq; exact ⟨h1, h2, fun _ => h3⟩
+    | matrix m ops =>
+      rw [mckay_passthrough atol _ nm (by intro _ _ _ _ h; cases h)] at h; exact ops_of_self hd h
+    | ctrl c g' =>
+      rw [mckay_passthrough atol _ nm (by intro _ _ _ _ h; cases h)] at h; exact ops_of_self hd h
+  | cnot =>
+    change cnotDecompose atol (g, nm) = .ok out at h
+    by_cases hg : ∃ c t ax an ph, g = .ctrl c (.bsr t ax an ph)
+    · obtain ⟨c, t, ax, an, ph, rfl⟩ := hg
+      have hct := (cnot_shape h).1
+      have hc : c ∈ (Gate.ctrl c (.bsr t ax an ph)).operands := by simp [Gate.operands]
+      have ht : t ∈ (Gate.ctrl c (.bsr t ax an ph)).operands := by simp [Gate.operands]
+      intro s hs
+      rcases cnot_elems h s hs with hr | hr | hr | hr
+      · obtain ⟨_, _, _, rfl⟩ := hr
+        refine ⟨fun x hx => ?_, ?_, fun _ => rfl⟩
+        · simpa [Gate.operands] using hx
+        · have : ¬ t = c := fun e => hct e.symm
+          simp [Gate.operands, hasDup, this, hct]
+      · obtain ⟨h1, h2, h3⟩ := ops_of_isRot hr ht; exact ⟨h1, h2, fun _ => h3⟩
+      · obtain ⟨h1, h2, h3⟩ := ops_of_isRot hr ht; exact ⟨h1, h2, fun _ => h3⟩
+      · obtain ⟨h1, h2, h3⟩ := ops_of_isRot hr hc; exact ⟨h1, h2, fun _ => h3⟩
+    · rw [cnot_passthrough atol g nm (fun c t ax an ph hh => hg ⟨c, t, ax, an, ph, hh⟩)] at h
+      exact ops_of_self hd h
+
 end OSq
 
 #print axioms OSq.named_rot_iff
@@ -496,3 +976,11 @@ end OSq
 #print axioms OSq.cnot_count
 #print axioms OSq.cnot_length
 #print axioms OSq.cnot_passthrough
+#print axioms OSq.mckayDecompose_bsr_eq
+#print axioms OSq.mckay_form
+#print axioms OSq.mckay_shape
+#print axioms OSq.no_identity_mckay
+#print axioms OSq.mckay_passthrough
+#print axioms OSq.mckay_passthrough_native
+#print axioms OSq.mckay_null
+#print axioms OSq.decomposer_operands_subset
